@@ -11,7 +11,7 @@ import ast
 
 from .. import lin, paths, storewalk, tables
 from ..model import AnalysisError, Project, self_attr, walk_no_nested
-from ..report import Result
+from ..report import Result, ctx_of
 from ..tables import RP, TRIGGERS, MUT
 from .common import events_atoms, site, src, sum_lin, status_str
 
@@ -50,6 +50,7 @@ def run(p: Project, tier: str) -> Result:
     r.not_decided = []
     ws = storewalk.walks(p, assume_inv=('I1',))
     for w in ws:
+        r.ctx = ctx_of(w)
         check_store(p, w, r)
         check_rejections(p, w, r)
         r.paths += w.npaths
